@@ -927,8 +927,9 @@ func (pc *PeerConnection) CreateAnswer(options *AnswerOptions) (SessionDescripti
 	}
 
 	connectionRole := connectionRoleFromDtlsRole(pc.api.settingEngine.answeringDTLSRole)
-	if connectionRole == sdp.ConnectionRole(0) {
-		dtlsRole := dtlsRoleFromSDP(remoteDesc.parsed)
+	// An offer that already commits to active or passive leaves the answerer no choice (RFC 4145 S4.1).
+	dtlsRole := dtlsRoleFromSDP(remoteDesc.parsed)
+	if connectionRole == sdp.ConnectionRole(0) || dtlsRole != DTLSRoleAuto {
 		switch dtlsRole {
 		case DTLSRoleClient:
 			connectionRole = connectionRoleFromDtlsRole(DTLSRoleServer)
@@ -941,7 +942,7 @@ func (pc *PeerConnection) CreateAnswer(options *AnswerOptions) (SessionDescripti
 		// If one of the agents is lite and the other one is not, the lite agent must be the controlled agent.
 		// If both or neither agents are lite the offering agent is controlling.
 		// RFC 8445 S6.1.1
-		if isIceLiteSet(remoteDesc.parsed) && !pc.api.settingEngine.candidates.ICELite {
+		if dtlsRole == DTLSRoleAuto && isIceLiteSet(remoteDesc.parsed) && !pc.api.settingEngine.candidates.ICELite {
 			connectionRole = connectionRoleFromDtlsRole(DTLSRoleServer)
 		}
 	}
